@@ -44,6 +44,19 @@ def python_monitor(c, hist, results, exp, prefixes, envdims, hidx):
 def main():
     c = Check("C01")
     c.static_theorems()
+    # tie A: the rendering functions change nothing reachable from their arguments (a rendering cannot change what a unit is)
+    try:
+        import struct_scan
+        muts = struct_scan.argument_mutations("formatting.py")
+        txt_ = ("From Coq Require Import List. Import ListNotations.\n"
+                f"(* statements of formatting.py that mutate an argument: {muts} *)\n"
+                f"Definition argument_mutations_in_formatting : list nat := {clist('%d%%nat' % min(l_, 4999) for _f, l_, _s in muts)}.\n"
+                "Lemma renderers_do_not_mutate_their_arguments : argument_mutations_in_formatting = [].\nProof. reflexivity. Qed.\n")
+        ok_, log_ = c.run_coq({"Gen_purity": txt_})["Gen_purity"]
+        c.oblige("Gen_purity.renderers_do_not_mutate_their_arguments (no statement of formatting.py assigns to, augments, deletes from or calls a mutating method on an object reachable from a parameter)",
+                 ok_, f"mutating statements: {muts}")
+    except Exception as ex:
+        c.oblige("struct_scan.argument_mutations (translator over formatting.py)", False, str(ex))
     exp = impl("export_worker.py", {})
     prefixes = exp["prefix_by_name"]
     names = [n for n in G.NAMES if n in exp["unit_by_name"]]
